@@ -2,6 +2,7 @@
 from __future__ import annotations
 
 import datetime as _dt
+import math
 import random
 
 from vlib import tzcases as T
@@ -12,12 +13,112 @@ PROPS = "Props/C03.v"
 RULE = ("enumerated: for ~60 zones (thorough: all) the offset-changing transitions, start instants on both sides of / inside each gap or overlap and both folds of repeated times, "
         "amounts (hours, minutes, seconds, microseconds) with mixed signs, carries across several units, landing before/at/after the transition, |total| up to 10^9 s and beyond "
         "(results outside years 1..9999 must raise), through add(), subtract(), + timedelta, - timedelta; naive DateTimes; subtract() undoing add(). "
-        "add_duration itself (translated) is run on naive values and dates. non-trivial = distinct (zone, instant, amount, route).")
+        "add_duration itself (translated) is run on naive values and dates. "
+        "FLOAT route (dt + td, dt - td, td + dt with a plain timedelta; model FloatRoutes.add_timedelta / sub_timedelta over SpecFloat): td-boundary = +-(2^k s +- j us), k <= 33, and the "
+        "carries at 58..61 s, 3599/3600 s, 86399/86400 s, 1 year, sub-second negatives such as timedelta(microseconds=-1), each landing on / starting in / crossing every kind of tz transition, "
+        "UTC and fixed offsets; td-random (log-uniform |td| < 2^33 s); td-beyond-2-33 (|td| >= 2^33 s: the listed finding); td-naive; td-add-duration-float / td-add-seconds-float = ARBITRARY doubles "
+        "(neighbours of microsecond values, exact halves n + j/128, 59.999..., subnormals, inf, nan) through helpers.add_duration(dt, seconds=x) and DateTime.add(seconds=x). "
+        "non-trivial = distinct (zone, instant, amount, route).")
 EXHAUSTIVE = {"quick": False, "thorough": False}
 TRUSTED = ["zoneinfo / tzdata as in C01, C02", "Model/TzConvert.v add_fixed / add_naive hand model of DateTime.add (tied by correspondence); helpers.add_duration is translated (Gen/AddDuration.v)",
-           "the + / - timedelta route goes through float total_seconds(): covered by the oracle (exact below 2^33 s), not by a theorem"]
+           "Model/FloatRoutes.v: hand model of the float route (_add_timedelta_/_subtract_timedelta -> add(seconds=<float>) -> add_duration's float carry chain -> CPython's timedelta(float args): "
+           "accum/modf/round-half-even), over Coq's SpecFloat binary64 (Spec/TdFloat.v); tied to /repo by the td-* correspondence streams (both backends), incl. arbitrary doubles",
+           "the float theorems (float_carry_chain_exact, add_timedelta_*, sub_timedelta_*, naive_plus_timedelta_*) are proved with Flocq and depend on the axioms of Coq's classical real numbers as "
+           "printed by Print Assumptions: ClassicalDedekindReals.sig_forall_dec, ClassicalDedekindReals.sig_not_dec, FunctionalExtensionality.functional_extensionality_dep, Classical_Prop.classic "
+           "(no axiom of our own; the SpecFloat model itself is axiom-free and the boundary-family theorem is a closed kernel computation)"]
 ASSUMPTIONS = ["native datetime arithmetic of CPython (naive + timedelta) is Spec/NativeDT.v ndt_add_td; validated by the add_duration stream"]
 ROUTES = ["add", "subtract", "plus_td", "minus_td"]
+TD_ROUTES = ["plus_td", "minus_td", "radd_td"]
+B33 = 2 ** 33 * 10 ** 6          # microseconds in 2^33 seconds: below it float total_seconds() round-trips exactly (theorem)
+FINDING_TD = "timedelta-float-seconds-beyond-2-33"
+
+
+# ----------------------------------------------------------------------------- floats on the wire: (tag, mantissa, exponent) = TdFloat.sf_code
+def fcode(x):
+    x = float(x)
+    if x != x:
+        return [6, 0, 0]
+    if x == math.inf:
+        return [4, 0, 0]
+    if x == -math.inf:
+        return [5, 0, 0]
+    if x == 0:
+        return [1, 0, 0] if math.copysign(1.0, x) < 0 else [0, 0, 0]
+    m, e = math.frexp(abs(x))
+    m = int(m * 2 ** 53)
+    e -= 53
+    if e < -1074:
+        m >>= (-1074 - e)
+        e = -1074
+    return [3 if x < 0 else 2, m, e]
+
+
+def td_float_roundtrip(N):
+    """timedelta(seconds=timedelta(microseconds=N).total_seconds()) in microseconds (stdlib only)."""
+    t = _dt.timedelta(seconds=_dt.timedelta(microseconds=N).total_seconds())
+    return (t.days * 86400 + t.seconds) * T.MEG + t.microseconds
+
+
+def _td_boundary_amounts():
+    """Deterministic boundary family for the timedelta route: +-(2^k s +- j us), k <= 33, and the carries of add_duration's float chain."""
+    out = set()
+    for k in range(0, 34):
+        for j in (0, 1, -1, 2, 499999, 500000, 500001, -500000, 999999):
+            out.add(2 ** k * T.MEG + j)
+    for sec in (58, 59, 60, 61, 119, 120, 3540, 3599, 3600, 3601, 3659, 3660, 7199, 7200, 82800, 86339, 86340, 86399, 86400, 86401, 86459, 86460,
+                89999, 90000, 172799, 172800, 31535999, 31536000):
+        for j in (0, 1, -1, 500000, 999999, -999999):
+            out.add(sec * T.MEG + j)
+    for u in (1, 2, 3, 499999, 500000, 500001, 999998, 999999, 1000000, 1000001):
+        out.add(u)
+    out = {n for n in out if 0 < n < B33}
+    return sorted(out | {-n for n in out} | {0})
+
+
+def _td_beyond_amounts(rnd):
+    """|td| >= 2^33 s: total_seconds() has a spacing above 1 us, the route can be off by microseconds (listed finding)."""
+    out = []
+    for k in range(33, 39):
+        for j in (0, 1, 3, 7, 500001, -1, -3):
+            n = 2 ** k * T.MEG + j
+            if abs(n) >= B33:
+                out.append(n)
+    for _ in range(60):
+        out.append(rnd.randrange(B33, 3 * 10 ** 11 * T.MEG))
+    return out + [-n for n in out]
+
+
+def _float_samples(rnd, n_rand):
+    """Arbitrary doubles (not only total_seconds() values) for add_duration(dt, seconds=x) / dt.add(seconds=x): as float.hex() strings."""
+    xs = []
+    for N in _td_boundary_amounts()[::7]:
+        x = N / T.MEG
+        xs += [x, math.nextafter(x, math.inf), math.nextafter(x, -math.inf)]
+    for base in (0, 1, 58, 59, 60, 61, 3599, 3600, 86399, 86400, 2 ** 20, 2 ** 31 - 1, 2 ** 33):
+        for j in (1, 3, 63, 64, 65, 127):        # base + j/128: 1e6 * j/128 is exact and ends in .5 -> exact-half leftovers
+            xs.append(base + j / 128.0)
+    xs += [59.0, math.nextafter(59.0, math.inf), 59.9999999, 60 - 2.0 ** -47, 59.99999999999999, 3599.9999999, 3599.9999995, 86399.9999996, 86399.99999999999,
+           1e-7, 4.9e-7, 5e-7, 5.1e-7, 1.5e-6, 2.5e-6, 5e-324, 2.2250738585072014e-308, 0.1, 0.3, 1 / 3.0, 2 / 3.0, 1e9 + 0.1, 1e10 + 0.7, 2.0 ** 40 + 0.5,
+           1e11 / 3, 123456789.987654321, 23 * 3600.0, 24 * 3600.0 - 2.0 ** -37, 1439 * 60.0, 1440 * 60.0, 0.0]
+    for _ in range(n_rand):
+        k = rnd.randrange(6)
+        if k == 0:
+            xs.append(rnd.uniform(0, 120))
+        elif k == 1:
+            xs.append(rnd.uniform(0, 200000))
+        elif k == 2:
+            xs.append(math.ldexp(rnd.random() + 0.5, rnd.randrange(-30, 38)))
+        elif k == 3:
+            xs.append(rnd.randrange(0, 10 ** 7) * 60 + rnd.choice([0.0, 0.5, 59.999999, 59.9999996, 2.0 ** -20]))
+        elif k == 4:
+            xs.append(rnd.randrange(0, 2 ** 35) + rnd.randrange(0, 128) / 128.0)
+        else:
+            xs.append(rnd.randrange(0, 10 ** 15) / 10 ** 6)
+    out = []
+    for x in xs:
+        out.append(float(x).hex())
+        out.append((-float(x)).hex())
+    return out
 
 
 def _amounts(rnd, total_hint=None):
@@ -91,6 +192,83 @@ def cases(tier, seed):
         ym = [rnd.randrange(-30, 31), rnd.randrange(-40, 41), rnd.randrange(-60, 61), rnd.randrange(-500, 501)]
         am = _amounts(rnd) if isdt or rnd.random() < 0.2 else [0, 0, 0, 0]
         out.append({"stream": "add_duration", "fn": "add_duration", "args": [W, isdt, ym + am]})
+    out += _td_cases(tier, rnd, zs)
+    return out
+
+
+def _in_range(U):
+    return T.US_DAY * 400 < U < T.MAX_WALL - T.US_DAY * 400
+
+
+def _td_cases(tier, rnd, zs):
+    """The float route: dt + timedelta, dt - timedelta, timedelta + dt (model: FloatRoutes.add_timedelta / sub_timedelta)."""
+    out = []
+    fixed = [0, 3600, -12600, 20700, 86340, -86340]
+    # anchors: (zone, instant of a transition, |shift|) for every kind of transition of a dozen zones + UTC / fixed offsets
+    anchors = []
+    for name in (zs if tier == "thorough" else zs[:14]):
+        for (tt, o_pre, o_post) in T.transition_probes(name, rnd, per_zone=None if tier == "thorough" else 4):
+            anchors.append((name, (tt + T.EPOCH_S) * T.MEG, abs(o_post - o_pre)))
+    for f in fixed:
+        anchors.append((f, rnd.randrange(T.US_DAY * 100000, T.MAX_WALL - T.US_DAY * 100000), 0))
+    amounts = _td_boundary_amounts()
+    k = 0
+    for N in amounts:
+        for rep in range(2 if tier == "quick" else 4):
+            spec, base, sh = anchors[k % len(anchors)]
+            route = TD_ROUTES[k % 3]
+            shift = -N if route == "minus_td" else N
+            mode = (k // 3) % 4
+            if mode == 0:      # land exactly around the transition
+                U = base - shift + rnd.choice([-1, 0, 1, sh * T.MEG - 1, sh * T.MEG])
+            elif mode == 1:    # start around / inside the transition
+                U = base + rnd.choice([-1, 0, 1, (sh // 2) * T.MEG, sh * T.MEG - 1, sh * T.MEG + 5, -sh * T.MEG - 7])
+            elif mode == 2:    # cross it
+                U = base - shift // 2
+            else:
+                U = rnd.randrange(T.US_DAY * 400, T.MAX_WALL - T.US_DAY * 400)
+            k += 1
+            if not (_in_range(U) and _in_range(U + shift)):
+                U = rnd.randrange(T.US_DAY * 110000, T.MAX_WALL - T.US_DAY * 110000)
+            out.append({"stream": "td-boundary", "fn": "td_route", "args": [spec, U, N, route]})
+    # random amounts below 2^33 s, log-uniform magnitudes
+    for _ in range(2500 if tier == "quick" else 40000):
+        mag = int(math.ldexp(rnd.random() + 0.5, rnd.randrange(0, 53)))
+        N = rnd.choice([1, -1]) * (mag % B33)
+        spec = zs[rnd.randrange(len(zs))] if rnd.random() < 0.75 else fixed[rnd.randrange(len(fixed))]
+        route = TD_ROUTES[rnd.randrange(3)]
+        U = rnd.randrange(T.US_DAY * 110000, T.MAX_WALL - T.US_DAY * 110000)
+        out.append({"stream": "td-random", "fn": "td_route", "args": [spec, U, N, route]})
+    # beyond 2^33 s (listed finding: off by microseconds)
+    for i, N in enumerate(_td_beyond_amounts(rnd)):
+        route = TD_ROUTES[i % 3]
+        shift = -N if route == "minus_td" else N
+        spec = ["UTC", 3600, "Europe/Paris", -12600, "America/New_York", "Asia/Tokyo"][i % 6]
+        lo, hi = max(0, -shift) + T.US_DAY * 400, min(T.MAX_WALL, T.MAX_WALL - shift) - T.US_DAY * 400
+        if lo < hi:
+            out.append({"stream": "td-beyond-2-33", "fn": "td_route", "args": [spec, rnd.randrange(lo, hi), N, route]})
+    # results outside years 1..9999 must raise
+    for spec in ("UTC", "Europe/Paris", 3600):
+        for U, sgn in ((T.US_DAY * 2, -1), (T.MAX_WALL - T.US_DAY * 2, 1)):
+            out.append({"stream": "td-range-edge", "fn": "td_route", "args": [spec, U, sgn * 5 * T.US_DAY, "plus_td"]})
+            out.append({"stream": "td-range-edge", "fn": "td_route", "args": [spec, U, -sgn * 5 * T.US_DAY, "minus_td"]})
+    # naive values
+    for i, N in enumerate(amounts[::3] + [rnd.randrange(-B33 + 1, B33) for _ in range(300)]):
+        W = rnd.randrange(T.US_DAY * 110000, T.MAX_WALL - T.US_DAY * 110000)
+        out.append({"stream": "td-naive", "fn": "td_naive", "args": [W, N, TD_ROUTES[i % 3]]})
+    # arbitrary doubles through helpers.add_duration(dt, seconds=x) and DateTime.add(seconds=x): correspondence of the carry chain itself
+    fl = _float_samples(rnd, 400 if tier == "quick" else 6000)
+    for i, hx in enumerate(fl):
+        W = rnd.randrange(T.US_DAY * 1300000, T.MAX_WALL - T.US_DAY * 1300000)
+        out.append({"stream": "td-add-duration-float", "fn": "add_duration_float", "args": [W, hx]})
+        if i % 4 == 0:
+            spec, base, sh = anchors[i % len(anchors)]
+            U = base - int(float.fromhex(hx) * T.MEG) + rnd.choice([-1, 0, 1])
+            if not _in_range(U):
+                U = rnd.randrange(T.US_DAY * 1300000, T.MAX_WALL - T.US_DAY * 1300000)
+            out.append({"stream": "td-add-seconds-float", "fn": "add_seconds_float", "args": [spec, U, hx]})
+    for hx in ("inf", "-inf", "nan"):
+        out.append({"stream": "td-add-duration-float", "fn": "add_duration_float", "args": [T.US_DAY * 730000, hx]})
     return out
 
 
@@ -137,6 +315,34 @@ def impl_run(cases):
                     r = x - td
                     back = r + td
                 out.append(T.dt_result(r, tz.name) + T.dt_result(back, tz.name))
+            elif fn == "td_route":
+                spec, U, N, route = a
+                W, fold, off = T.ref_render(T.ref_zone(spec), U)
+                y, mo, d, h, mi, s, us = T.fields_of(W)
+                tz = T.pzone(spec)
+                x = pendulum.DateTime(y, mo, d, h, mi, s, us, tzinfo=tz, fold=fold)
+                td = _dt.timedelta(microseconds=N)
+                r = x + td if route == "plus_td" else (td + x if route == "radd_td" else x - td)
+                out.append(T.dt_result(r, tz.name))
+            elif fn == "td_naive":
+                W, N, route = a
+                y, mo, d, h, mi, s, us = T.fields_of(W)
+                x = pendulum.naive(y, mo, d, h, mi, s, us)
+                td = _dt.timedelta(microseconds=N)
+                r = x + td if route == "plus_td" else (td + x if route == "radd_td" else x - td)
+                out.append([0, T.wall_of(r), r.fold, int(r.tzinfo is None), int(isinstance(r, pendulum.DateTime))])
+            elif fn == "add_duration_float":
+                W, hx = a
+                y, mo, d, h, mi, s, us = T.fields_of(W)
+                r = add_duration(_dt.datetime(y, mo, d, h, mi, s, us), seconds=float.fromhex(hx))
+                out.append([0, T.wall_of(r)])
+            elif fn == "add_seconds_float":
+                spec, U, hx = a
+                W, fold, off = T.ref_render(T.ref_zone(spec), U)
+                y, mo, d, h, mi, s, us = T.fields_of(W)
+                tz = T.pzone(spec)
+                x = pendulum.DateTime(y, mo, d, h, mi, s, us, tzinfo=tz, fold=fold)
+                out.append(T.dt_result(x.add(seconds=float.fromhex(hx)), tz.name))
             elif fn == "add_naive":
                 W, am, route = a
                 y, mo, d, h, mi, s, us = T.fields_of(W)
@@ -158,22 +364,51 @@ def impl_run(cases):
 
 
 # ----------------------------------------------------------------------------- model
+def _window(spec, U0, U1):
+    """Zone table window covering both the start and the (exact) end instant; None when it would be too large for the wire."""
+    u0 = min(max(U0, 0), T.MAX_WALL) // T.MEG - T.EPOCH_S
+    u1 = min(max(U1, 0), T.MAX_WALL) // T.MEG - T.EPOCH_S
+    lo, hi = min(u0, u1), max(u0, u1)
+    enc = T.zone_enc(spec, lo - 180000, hi + 180000)
+    if hi - lo > 400 * 86400 * 30 and not isinstance(spec, int) and len(enc) >= 4000:
+        return None
+    return enc
+
+
 def model_calls(c, backend):
     fn, a = c["fn"], c["args"]
     if fn == "add_fixed":
         spec, U, am, route = a
-        if route not in ("add", "subtract"):
-            return None   # the timedelta routes go through floats: oracle only
         W, fold, off = T.ref_render(T.ref_zone(spec), U)
-        u0 = U // T.MEG - T.EPOCH_S
-        u1 = (U + _total(am)) // T.MEG - T.EPOCH_S
-        lo, hi = min(u0, u1), max(u0, u1)
-        if hi - lo > 400 * 86400 * 30:
-            # far apart: two lookups far from each other; give the model both neighbourhoods by a wide window only when cheap
-            tab_ok = isinstance(spec, int) or len(T.zone_enc(spec, lo - 180000, hi + 180000)) < 4000
-            if not tab_ok:
-                return None
-        return [("add_fixed", T.zone_enc(spec, lo - 180000, hi + 180000) + [W, fold] + am)]
+        enc = _window(spec, U, U + _total(am))
+        if enc is None:
+            return None
+        if route == "plus_td":      # x + timedelta(microseconds=total): the float route (Model/FloatRoutes.v)
+            return [("add_timedelta", enc + [W, fold, _total(am)])]
+        if route == "minus_td":     # x - timedelta(microseconds=-total)
+            return [("sub_timedelta", enc + [W, fold, -_total(am)])]
+        return [("add_fixed", enc + [W, fold] + am)]
+    if fn == "td_route":
+        spec, U, N, route = a
+        W, fold, off = T.ref_render(T.ref_zone(spec), U)
+        enc = _window(spec, U, U + (-N if route == "minus_td" else N))
+        if enc is None:
+            return None
+        return [("sub_timedelta" if route == "minus_td" else "add_timedelta", enc + [W, fold, N])]
+    if fn == "td_naive":
+        W, N, route = a
+        return [("sub_timedelta_naive" if route == "minus_td" else "add_timedelta_naive", [0, 0, W, 1, N])]
+    if fn == "add_duration_float":
+        W, hx = a
+        return [("add_duration_float", [0, 0, W] + fcode(float.fromhex(hx)))]
+    if fn == "add_seconds_float":
+        spec, U, hx = a
+        W, fold, off = T.ref_render(T.ref_zone(spec), U)
+        x = float.fromhex(hx)
+        enc = _window(spec, U, U + int(x * T.MEG) if math.isfinite(x) else U)
+        if enc is None:
+            return None
+        return [("add_seconds_float", enc + [W, fold] + fcode(x))]
     if fn == "add_naive":
         W, am, route = a
         return [("add_naive", [0, 0, W, 1, 0, 0, 0, 0] + am)]
@@ -192,10 +427,16 @@ def same(c, m, r):
         if r[0] == 1 or m[0] == 1:
             return m[:2] == r[:2]
         return m == r[:4]
-    if fn == "add_naive":
+    if fn in ("td_route", "add_seconds_float"):
+        if r[0] == 1 or m[0] == 1:
+            return m[:2] == r[:2]
+        return m == r[:4]
+    if fn in ("add_naive", "td_naive"):
         if r[0] == 1 or m[0] == 1:
             return m[:2] == r[:2]
         return m[:3] == r[:3]
+    if fn == "add_duration_float" and (r[0] == 1 or m[0] == 1):
+        return m[:2] == r[:2]
     return m == r
 
 
@@ -211,9 +452,6 @@ def oracle(c, backend, r):
         W2, f2, o2 = T.ref_render(T.ref_zone(spec), U2)
         if not (0 <= W2 <= T.MAX_WALL):
             return None if r[0] == 1 else f"{route}: local result outside years 1..9999 must raise, got {r[:4]}"
-        if route in ("plus_td", "minus_td") and abs(tot) >= 2 ** 33 * T.MEG:
-            # float total_seconds() is only exact below 2^33 s: the statement's bound is |total| up to 10^9 s
-            return None
         if r[0] != 0:
             return f"{route}({spec}, instant {U}, {am}) raised {r[:2]}, expected instant {U2}"
         exp = [0, W2, f2, o2]
@@ -223,6 +461,29 @@ def oracle(c, backend, r):
         W0, f0, o0 = T.ref_render(T.ref_zone(spec), U)
         if r[4:8] != [0, W0, f0, o0]:
             return f"{route} then its inverse from instant {U} in {spec} with {am}: came back to {r[4:8]}, expected {[0, W0, f0, o0]}"
+        return None
+    if fn == "td_route":
+        spec, U, N, route = a
+        U2 = U + (-N if route == "minus_td" else N)
+        what = {"plus_td": "dt + td", "minus_td": "dt - td", "radd_td": "td + dt"}[route] + f" with td = timedelta(microseconds={N})"
+        if not (0 <= U2 <= T.MAX_WALL):
+            return None if r[0] == 1 and r[1] in (T.EXN["OverflowError"], T.EXN["ValueError"]) else f"{what}: result outside years 1..9999 must raise, got {r[:4]}"
+        W2, f2, o2 = T.ref_render(T.ref_zone(spec), U2)
+        if not (0 <= W2 <= T.MAX_WALL):
+            return None if r[0] == 1 else f"{what}: local result outside years 1..9999 must raise, got {r[:4]}"
+        if r[0] != 0:
+            return f"{what} in {spec} from instant {U} raised {r[:2]}, expected instant {U2}"
+        if r[:4] != [0, W2, f2, o2]:
+            return (f"{what} in {spec} from instant {U}: got wall {T.fields_of(r[1])} fold {r[2]} offset {r[3]} i.e. instant {r[1] - r[3] * T.MEG} "
+                    f"(off by {r[1] - r[3] * T.MEG - U2} us); exact elapsed time gives instant {U2} = wall {T.fields_of(W2)} fold {f2} offset {o2}")
+        return None
+    if fn == "td_naive":
+        W, N, route = a
+        W2 = W + (-N if route == "minus_td" else N)
+        if not (0 <= W2 <= T.MAX_WALL):
+            return None if r[0] == 1 else f"naive {route}: out of range must raise, got {r}"
+        if r[0] != 0 or r[1] != W2 or r[3] != 1 or r[4] != 1:
+            return f"naive {route}(wall {T.fields_of(W)}, timedelta(microseconds={N})): got {r}, expected wall {T.fields_of(W2)} still naive"
         return None
     if fn == "add_naive":
         W, am, route = a
@@ -253,14 +514,30 @@ def oracle(c, backend, r):
 
 
 def known(c, backend, r):
+    fn, a = c["fn"], c["args"]
+    if fn == "td_route" and r[0] == 0:
+        # plain-timedelta operand, |td| >= 2^33 s: total_seconds() cannot carry the microseconds (spacing of doubles >= 2^-19 s);
+        # the result is the exact rendering of  instant +- timedelta(seconds=td.total_seconds())  and deviates by at most 64 us
+        spec, U, N, route = a
+        if abs(N) >= B33:
+            Nf = td_float_roundtrip(N)
+            if Nf != N and abs(Nf - N) <= 64:
+                U2 = U + (-Nf if route == "minus_td" else Nf)
+                if 0 <= U2 <= T.MAX_WALL and r[:4] == [0] + list(T.ref_render(T.ref_zone(spec), U2)):
+                    return FINDING_TD
     return None
 
 
-LEVEL_TEXT = ("Machine-checked Coq theorems: helpers.add_duration (translated from /repo on every run) equals guard + sign-aware carry normalisation + month step + native addition, "
+LEVEL_TEXT = ("Machine-checked Coq theorems, integer AND float routes. Float route (dt + td / dt - td / td + dt with a plain timedelta of N microseconds, |N| < 2^33 s): the whole float computation "
+              "(total_seconds, three float divmod carries of add_duration, CPython's timedelta(float) constructor) returns exactly N (float_carry_chain_exact, proved with Flocq), hence for every well-formed "
+              "zone the result is the database rendering of instant +- N, with the same result and exceptions as add(microseconds=N), dt - td undoes dt + td, naive values shift on their own clock; beyond "
+              "2^33 s the route is off by microseconds (add_timedelta_beyond_2_33_refuted, known finding reproduced on the implementation). Integer route: helpers.add_duration (translated from /repo on every run) equals guard + sign-aware carry normalisation + month step + native addition, "
               "the normalisation preserves the total for ALL integers, for fixed units it is an exact wall shift (OverflowError outside years 1..9999); and for every well-formed zone, "
               "DateTime.add with hours/minutes/seconds/microseconds returns the database rendering of (instant + exactly the requested microseconds) in the same zone, subtract() with "
               "the same arguments returns to the original instant/offset/fields, a naive value is shifted on its own clock. Correspondence at every kind of transition, both backends.")
 DESIGN_REF = "DESIGN.md section 4 C03"
-LEVEL_NOTE = ("Trusted: Coq kernel+VM; translator; Spec/Zone.v, Spec/NativeDT.v as models of zoneinfo / naive datetime arithmetic (validated by correspondence); Model/TzConvert.v add_fixed hand model; "
-              "the '+ timedelta' route (float total_seconds) is checked by the oracle only (exact below 2^33 s).")
-TECHNIQUE = "Coq proof (lia/nia over translated add_duration, induction over tz tables) + differential correspondence"
+LEVEL_NOTE = ("Trusted: Coq kernel+VM; translator; Spec/Zone.v, Spec/NativeDT.v as models of zoneinfo / naive datetime arithmetic (validated by correspondence); Model/TzConvert.v add_fixed and Model/FloatRoutes.v hand models; "
+              "Spec/TdFloat.v (SpecFloat binary64 = CPython floats, validated bit for bit by the td-add-duration-float stream); the float theorems additionally depend on the standard-library axioms of the "
+              "classical reals (ClassicalDedekindReals.sig_forall_dec, sig_not_dec, functional_extensionality_dep, Classical_Prop.classic) through Flocq. The statement's quantifier stops at 10^9 s; the "
+              "theorems hold up to 2^33 s (8.59e9 s), which is sharp.")
+TECHNIQUE = "Coq proof (lia/nia over translated add_duration, induction over tz tables, Flocq real-number semantics of SpecFloat for the float route) + differential correspondence"
